@@ -157,6 +157,8 @@ def make_problem(E, var_kinds, cons_kinds, fmt="coo", jac_pattern=None, hess_pat
     def Hf(a, b, xs, ys):
         return E.uf(f"{tag}H{a}_{b}") if const else E.uf(f"{tag}H{a}_{b}", *xs, *ys)
 
+    spec = dict(jac_pattern=jac_pattern, hess_pattern=hess_pattern)  # the CURRENT patterns (a harness may switch them between evaluation points)
+
     class P(Problem):
         def __init__(self):
             kw = dict(cons_lb=arr(cl), cons_ub=arr(cu)) if m else {}
@@ -184,7 +186,7 @@ def make_problem(E, var_kinds, cons_kinds, fmt="coo", jac_pattern=None, hess_pat
         def cons_jac(self, x):
             xs = items(x)
             calls.append(("cons_jac", xs, None, caller()))
-            return memo("J", pkey(x), lambda: make_sparse(fmt, (m, n), [(i, j, flag("cons_jac", Jf(i, j, xs))) for (i, j) in jac_pattern]))
+            return memo("J", pkey(x), lambda: make_sparse(fmt, (m, n), [(i, j, flag("cons_jac", Jf(i, j, xs))) for (i, j) in spec["jac_pattern"]]))
 
         def lag_hess(self, x, y):
             xs, ys = items(x), items(y)
@@ -192,7 +194,7 @@ def make_problem(E, var_kinds, cons_kinds, fmt="coo", jac_pattern=None, hess_pat
 
             def build():
                 ent = []
-                for (i, j) in hess_pattern:
+                for (i, j) in spec["hess_pattern"]:
                     a, b = (i, j) if i <= j else (j, i)
                     ent.append((i, j, flag("lag_hess", Hf(a, b, xs, ys))))
                 return make_sparse(fmt, (n, n), ent)
@@ -200,7 +202,7 @@ def make_problem(E, var_kinds, cons_kinds, fmt="coo", jac_pattern=None, hess_pat
             return memo("H", pkey(x, y), build)
 
     p = P()
-    spec = dict(n=n, m=m, xl=xl, xu=xu, cl=cl, cu=cu, calls=calls, var_kinds=var_kinds, cons_kinds=cons_kinds, jac_pattern=jac_pattern, hess_pattern=hess_pattern, tag=tag, Jf=Jf, Hf=Hf, policy=policy, cache=cache, handed=handed)
+    spec.update(n=n, m=m, xl=xl, xu=xu, cl=cl, cu=cu, calls=calls, var_kinds=var_kinds, cons_kinds=cons_kinds, tag=tag, Jf=Jf, Hf=Hf, policy=policy, cache=cache, handed=handed)
     return p, spec
 
 
